@@ -63,6 +63,17 @@ CHECKS = {
              "non-chunked images are written once and released (two known findings, stored replays).",
         tech=TECH % ("", "oracle = pixel-array reference model"),
     ),
+    "C11": dict(
+        profile="annot", cat="exploration", ref="DESIGN.md section 4 C11",
+        text="Seeded search over annotation histories: the four types through ANcreate/ANcreatef/ANwriteann (texts 1..300 "
+             "bytes, embedded NULs in descriptions), rewrites with longer and shorter text, several annotations per "
+             "object, per-object and per-type listings, the id<->tag/ref mapping in both directions, the single-file "
+             "DFAN calls on two files (same name prefix) between sessions, restarts. Oracle: annotation-set model "
+             "(every stored annotation enumerated exactly once with its text; nothing else). 10 000 / 200 000 histories.",
+        note="Trusts the set model; an annotation is written right after it is created; objects annotated through DFAN "
+             "carry one label and one description.",
+        tech=TECH % ("", "oracle = annotation-set reference model"),
+    ),
     "C12": dict(
         profile="ddmap", cat="exploration", ref="DESIGN.md section 4 C12",
         text="Seeded search over create/delete/duplicate/reuse/search/count/new-ref histories (descriptor-block sizes "
